@@ -235,10 +235,12 @@ Proof.
     + apply maybe_send_ef in H. destruct H. eapply EI_frame; eauto.
 Qed.
 
-Lemma step_E s f ag s' ag' : InvA s (f :: ag) -> EI s (f :: ag) -> step s f ag = (s', ag') -> EI s' ag'.
+Lemma step_E_live s f ag s' ag' :
+  h_destroying s = false -> InvA s (f :: ag) -> EI s (f :: ag) -> step s f ag = (s', ag') -> EI s' ag'.
 Proof.
-  intros HA HE H. pose proof HA as HA0. unfold InvA in HA. cbn [ndone] in HA.
-  destruct f as [[cb|full cb| | |r|]| | |]; cbn [step do_op] in H; unfold EI in HE; cbn [logs2] in HE.
+  intros Hnd HA HE H. pose proof HA as HA0. unfold InvA in HA. cbn [ndone] in HA.
+  destruct f as [[cb|full cb| | |r|]| | | |]; cbn [step do_op] in H; rewrite ?Hnd in H; cbn [negb andb] in H;
+    rewrite ?andb_true_r in H; unfold EI in HE; cbn [logs2] in HE.
   - destruct (s_max s <=? len (s_queue s)).
     + inversion H; subst. unfold EI. cbn. rewrite logs2_app, logs2_fop. exact HE.
     + eapply take_next_E; [| |exact H]; [unfold InvA; cbn; apply AP_qapp; exact HA|unfold EI; cbn; exact HE].
@@ -264,9 +266,38 @@ Proof.
     eapply take_next_E; [| |exact H].
     + unfold InvA; cbn. eapply AP_discdone. exact HA.
     + unfold EI; cbn. rewrite Hd in *. eapply EP_done. exact HE.
+  - inversion H; subst. exact HE.
+Qed.
+
+Lemma step_E_dying s f ag s' ag' :
+  h_destroying s = true -> s_pending s = true -> dframe f ->
+  EI s (f :: ag) -> step s f ag = (s', ag') -> EI s' ag'.
+Proof.
+  intros Hd Hp Hdf HE H.
+  destruct f as [[cb|full cb| | |r|]| | | |]; cbn in Hdf; try contradiction; cbn [step do_op] in H;
+    rewrite ?Hd in H; cbn [negb andb] in H; rewrite ?andb_false_r in H; unfold EI in HE; cbn [logs2] in HE.
+  - destruct (s_max s <=? len (s_queue s)).
+    + inversion H; subst. unfold EI. cbn. rewrite logs2_app, logs2_fop. exact HE.
+    + rewrite take_next_blocked in H by (cbn; exact Hp). inversion H; subst. unfold EI. cbn. exact HE.
+  - inversion H; subst. exact HE.
+  - inversion H; subst. unfold EI. cbn. exact HE.
+  - rewrite take_next_blocked in H by (cbn; exact Hp). inversion H; subst. unfold EI. cbn. exact HE.
+  - inversion H; subst. exact HE.
+  - inversion H; subst. exact HE.
+  - unfold destroy_next in H. destruct (s_queue s) as [|[id cb] q]; inversion H; subst; [exact HE|].
+    unfold EI. cbn. rewrite logs2_app, logs2_fop. cbn [logs2 app]. exact HE.
+Qed.
+
+Lemma step_E s f ag s' ag' : InvA2 s (f :: ag) -> EI s (f :: ag) -> step s f ag = (s', ag') -> EI s' ag'.
+Proof.
+  intros [[Hnd HA]|(Hd & (Hp & _) & Hdag & _)] HE H.
+  - eapply step_E_live; eauto.
+  - inversion Hdag; subst. eapply step_E_dying; eauto.
 Qed.
 
 Lemma EI_init max discov ms ds : EI (init max discov ms ds) [].
 Proof. unfold EI, EP, init; cbn. repeat split; auto. Qed.
 Lemma EI_trace l s o : EI s [] -> EI (set_g_trace l s) [FOp o].
 Proof. unfold EI; cbn; auto. Qed.
+Lemma EI_destroy s : EI s [] -> EI (start_destroy s) [FDestroy].
+Proof. unfold EI, start_destroy; cbn; auto. Qed.
